@@ -810,7 +810,57 @@ def gen_life(r, n, tier):
             yield c
 
 
+def gen_net(r, n, tier):
+    v4 = ["127.0.0.1", "127.0.0.2", "127.1.2.3", "127.0.0.9"]
+    # C16: every variant x matching / non-matching filters x peers
+    filters = ["any", "x127.0.0.1", "x127.0.0.2", "s127.0.0.1/127.1.2.3", "s",
+               "w" + hx(b"127.*.*.*"), "w" + hx(b"127.0.0.*"), "w" + hx(b"*.*.*.1"), "w" + hx(b"127.1.*.3"),
+               "w" + hx(b"10.*.*.*"), "x::1"]
+    for variant in ("tcp", "tls", "tlsa"):
+        for f in filters:
+            steps = ",".join(f"c{i + 1}.{p}" for i, p in enumerate(v4))
+            yield f"net {variant} m8 {f} {steps}" + (",q1,q2,q3,q4" if variant == "tcp" else "")
+        for f in ("any", "x::1", "x127.0.0.1", "w" + hx(b"*.*.*.*"), "s::1/127.0.0.1"):
+            yield f"net {variant}6 m8 {f} c1.::1" + (",q1" if variant == "tcp" else "")
+    # C15: session limit, eviction order, isolation, shutdown
+    for m in range(0, 5):
+        steps = []
+        for k in range(1, m + 4):
+            steps.append(f"c{k}.127.0.0.1")
+            steps += [f"p{j}" for j in range(1, k + 1)]
+        steps += [f"q{k}" for k in range(1, m + 4)]
+        yield f"net tcp m{m} any {','.join(steps)}"
+    yield "net tcp m3 any c1.127.0.0.1,c2.127.0.0.1,c3.127.0.0.1,g2,p1,p3,q1,q3,x1,p3,q3,c4.127.0.0.1,c5.127.0.0.1,p3,q3,q4,q5"
+    yield "net tcp m3 any c1.127.0.0.1,c2.127.0.0.1,L,q1,q2,S,p1,p2,c3.127.0.0.1,L,S"
+    yield "net tcp m3 any c1.127.0.0.1,c2.127.0.0.1,q1,H,p1,p2,c3.127.0.0.1"
+    yield "net tls m2 any c1.127.0.0.1,c2.127.0.0.1,c3.127.0.0.1,p1,p2,p3,S,p2,p3"
+    for _ in range(n):
+        variant = r.pick(["tcp", "tcp", "tcp", "tls", "tlsa"])
+        m = r.pick([0, 1, 2, 3, 4])
+        f = r.pick(filters[:10])
+        steps = []
+        nc = 0
+        for _ in range(r.rng(2, 14)):
+            k = r.below(10)
+            if k < 4 or nc == 0:
+                nc += 1
+                steps.append(f"c{nc}.{r.pick(v4)}")
+            elif k < 6 and variant == "tcp":
+                steps.append(f"q{r.rng(1, nc)}")
+            elif k < 7:
+                steps.append(f"p{r.rng(1, nc)}")
+            elif k < 8:
+                steps.append(f"g{r.rng(1, nc)}")
+            elif k < 9:
+                steps.append(f"x{r.rng(1, nc)}")
+            else:
+                steps.append(r.pick(["L", "L", "S", "H"]))
+        steps += [f"p{j}" for j in range(1, nc + 1)]
+        yield f"net {variant} m{m} {f} {','.join(steps)}"
+
+
 SUITES = {
+    "net": gen_net,
     "life": gen_life,
     "retry": gen_retry,
     "trk": gen_trk,
